@@ -129,6 +129,7 @@ class Interp:
         self.stack = []
         self.assumed_types = {}    # receiver term -> class name learned from CHA resolution
         self.unresolved = []       # (loc, text)
+        self.touched = set()       # module paths of every function interpreted by this object
         self.resolved_calls = 0
         self.total_calls = 0
 
@@ -148,6 +149,7 @@ class Interp:
         if a.kwarg:
             env[a.kwarg.arg] = ("param", "**" + a.kwarg.arg)
         act = _Activation(fi, (), 0)
+        self.touched.add(fi.module.path)
         self.stack.append(act)
         try:
             self._block(fi.node.body, _State(env, ()), act)
@@ -433,6 +435,22 @@ class Interp:
             if view == "values":
                 return base, lambda e: ("sub", base, e)
             return base, lambda e: e
+        # enumerate(<view of D>): one enumeration of the mapping's keys
+        if it[0] == "call" and it[1] == "builtins.enumerate" and len(it[2]) == 1 and not it[3]:
+            inner_it = it[2][0]
+            if inner_it[0] == "mcall" and inner_it[2] in ("items", "keys", "values") \
+                    and not inner_it[3] and not inner_it[4]:
+                base, view = inner_it[1], inner_it[2]
+                new_it = ("call", "builtins.enumerate", (base,), (), it[4] if len(it) > 4 else None)
+
+                def build(e, base=base, view=view):
+                    i, k = ("proj", e, 0), ("proj", e, 1)
+                    if view == "items":
+                        return ("tuple", (i, ("tuple", (k, ("sub", base, k)))))
+                    if view == "values":
+                        return ("tuple", (i, ("sub", base, k)))
+                    return ("tuple", (i, k))
+                return new_it, build
         return it, None
 
     def _for(self, s, st, act):
@@ -726,8 +744,11 @@ class Interp:
     def _opaque(self, act, what, loc):
         """record a construct whose effect is treated as unknown, with the files of every function
         on the call stack (what is derived about any of them may be incomplete)"""
-        files = tuple(sorted({a.fi.module.path for a in self.stack} | {act.fi.module.path}))
-        OPAQUE.append((act.fi.qualname, what, loc, files))
+        # every file this interpreter run touches (before or after this point): what the run
+        # derives about any of them may be incomplete.  The set object keeps growing until the run
+        # ends; it is read when the verdicts are settled.
+        self.touched.add(act.fi.module.path)
+        OPAQUE.append((act.fi.qualname, what, loc, self.touched))
 
     def _eval(self, e, st, act):
         m = getattr(self, "_e_" + type(e).__name__, None)
@@ -1631,6 +1652,7 @@ class Interp:
                               "dyn": [(("unknown", "**"), m, st.pc) for m in dyn_maps],
                               "pc0": st.pc}
             env[a.kwarg.arg] = ("dictobj", oid)
+        self.touched.add(fi.module.path)
         self._emit("enter", st, node, act, callee=fi.fq, how=how,
                    args=tuple(args), kwargs=tuple(sorted(kwargs.items())))
         self.stack.append(callee_act)
